@@ -616,7 +616,7 @@ PROPS = {
                        "ed Dereference is not mirrored in the commit overlay (C04r_lag_witness): readers see it after process_commits, which is "
                        "C07's carve-out, not a C04 violation."),
         "lean": ["Pdb.Props.C04", "Pdb.Props.C04b", "Pdb.Props.C04c", "Pdb.Props.C04r", "Pdb.Props.C04d", "Pdb.Props.C14Dump"],
-        "harness": [{"cmd": "c04", "quick": 150, "thorough": 1500, "max_search": 3000}],
+        "harness": [{"cmd": "c04", "quick": 150, "thorough": 800, "max_search": 3000, "timeout": 7200}],
         "rule": ("one SplitMix64 state per case: btree column (plain / lz4; one case in four ref_counted + preimage: Set / Dereference / "
                  "Reference with repeated keys in one transaction, value = function of the key, oracle = independent (value, count) map: "
                  "exact with an empty queue, while commits are queued every live key shown / nothing never-visible shown / no live key "
